@@ -19,9 +19,11 @@ THEOREMS = [_T + n for n in (
     'C15_reject_flags', 'C15_decision', 'C15_reject_where_partial', 'C15_validate_iff', 'C15_no_crash',
     'C15_null_partition_empty', 'C15_rows_nullsafe', 'C15_reject_where_fixed', 'C15_validateDeep_iff',
     'C15_rows_rev_fixed',
-    'C15_witness_1', 'C15_witness_3', 'C15_witness_4', 'C15_witness_6', 'C15_witness_null', 'C15_full_false')]
+    'C15_live_variant', 'C15_reject_where', 'C15_rows_rev',
+    'C15_witness_1', 'C15_witness_null', 'C15_full_false')]
 ASSUME = [
     'plan_timeseries_predictor / ts_utils are hand-modelled (MindsVerif.TS.planTS); tie = plan correspondence stream (exact WHERE trees of every generated select)',
+    'the variant of the WHERE handling (deep validation 6ba8cb8, operand normalisation a0ed2b6) is probed on the live code by tools/extract/x_c15.py (two queries) and pinned by the obligation C15_live_variant; the driver plans with the probed variant',
     'row semantics of the model (three-valued WHERE, ORDER BY t DESC as a stable sort of an arbitrary physical order, LIMIT) is tied to sqlite3 3.40 by the eval stream; sqlite3 is a reference engine, not part of a theorem',
     "'$var[col]' is read as substitution of the (non-NULL) partition value under SQL equality; reduce='union' as concatenation",
     'theorem domain Dom: order column on the left of the time condition, constants of any totally preordered value domain (VOrd: Int, ISO date strings, ...), partition filters g op c / IN / BETWEEN in any AND nesting; outside it only the correspondence and the probe speak',
@@ -253,7 +255,7 @@ def model_line(case):
     w = case.get('absw')
     fl = case.get('flags', '0000')
     lim = case.get('limit')
-    # C15_CFG=10|01|11: try the model of a proposed fix (fixes/C15_3, C15_4) against a patched work tree
+    # plain `P` = the variant the translator x_c15.py probed on the live code; C15_CFG=00|10|01|11 forces a variant (experiments only)
     return 'P' + os.environ.get('C15_CFG', '') + ' %d %d %s %s %s' % (case['nG'], case['window'], fl, '-' if lim is None else lim, w if w else '-')
 
 
